@@ -21,6 +21,7 @@ import ScyllaVerif.Model.ClusterConsumer
 import ScyllaVerif.Model.C19PoolInit
 import ScyllaVerif.Model.C19Whole
 import ScyllaVerif.Model.C19FetchPlan
+import ScyllaVerif.Model.C19Establish
 
 namespace ScyllaVerif.Props.C19
 open ScyllaVerif.MergeChannel
@@ -2943,6 +2944,28 @@ theorem consume_not_parked_on_pools (c : Consumer) (u : Update) (histories : Lis
   unfold consumeWaiting
   cases peersTag (some u) <;> simp [hall]
 
+/-- Which pools the next state waits for (`ClusterConsumer.poolsFor`): if every pool kept from the previous state has
+left `Initializing` and every brand-new pool's first fill has concluded, then no pool of the new state is `Initializing` -
+for every topology, filter mode and previous pool set. (A kept pool never goes back to `Initializing`:
+`pool_leaves_initializing` holds for every later history of it.) -/
+theorem pools_of_next_state_initialized (filter : Nat) (old : List (Nat × Nat × Nat × C19PoolInit.Pool))
+    (fresh : Nat → C19PoolInit.Pool) (t : Topo)
+    (hold : ∀ p ∈ old, p.2.2.2.shared ≠ .initializing) (hfresh : ∀ a, (fresh a).shared ≠ .initializing) :
+    poolsInitialized ((ClusterConsumer.poolsFor filter old fresh t).map fun p => p.2.2.2) = true := by
+  simp only [poolsInitialized, List.all_map, List.all_eq_true]
+  intro p hp
+  simp only [ClusterConsumer.poolsFor, List.mem_filterMap] at hp
+  obtain ⟨n, _, hn⟩ := hp
+  split at hn
+  · split at hn
+    · rename_i h d r pool hfind
+      have hmem := List.mem_of_find?_eq_some hfind
+      split at hn
+      · simp at hn; subst hn; simpa using hold _ hmem
+      · simp at hn; subst hn; simpa using hfresh n.addr
+    · simp at hn; subst hn; simpa using hfresh n.addr
+  · simp at hn
+
 -- non-vacuity: a brand-new pool whose first attempt is refused (the shape of the seeded pool defect): Broken, and the
 -- waiter that parked before the refusal is released; a pool still connecting parks the handler.
 example :
@@ -3230,5 +3253,137 @@ example :
     s.merged = [(.full, 2, 3), (.topology, 4, 5)] ∧ s.hints = [(7, false)] ∧ s.pending = .part none none := by decide
 
 end Scheduling
+
+/-! ### (re-)establishing the control connection over several candidates keeps the metadata it fetched -/
+section Establish
+open ScyllaVerif.C19Establish ScyllaVerif.RefreshFlow ScyllaVerif.MetaUpdate
+
+private theorem tryOnNodes_reestablish (cands : List Outcome) (rejected : Option Nat) :
+    (tryOnNodes false cands rejected).metadata = expected cands rejected ∧
+    (tryOnNodes false cands rejected = .err ↔ expected cands rejected = none) := by
+  induction cands generalizing rejected with
+  | nil => cases rejected <;> simp [tryOnNodes, expected, Result.metadata]
+  | cons c rest ih =>
+    cases c with
+    | connectFail => simpa [tryOnNodes, expected] using ih rejected
+    | fetchFail => simpa [tryOnNodes, expected] using ih rejected
+    | fetched m rej =>
+      cases rej with
+      | false => simp [tryOnNodes, expected, Result.metadata]
+      | true => simpa [tryOnNodes, expected] using ih (some m)
+
+private theorem expected_some_of_fetched (cands : List Outcome) (rejected : Option Nat)
+    (h : anyFetched cands = true ∨ rejected.isSome = true) : (expected cands rejected).isSome = true := by
+  induction cands generalizing rejected with
+  | nil => rcases h with h | h <;> simp_all [anyFetched, expected]
+  | cons c rest ih =>
+    cases c with
+    | connectFail => simp only [expected]; exact ih rejected (by simpa [anyFetched] using h)
+    | fetchFail => simp only [expected]; exact ih rejected (by simpa [anyFetched] using h)
+    | fetched m rej => cases rej <;> simp only [expected] <;> first | simp | exact ih (some m) (Or.inr rfl)
+
+/-- RE-ESTABLISHMENT never loses fetched metadata: for EVERY order of the candidates and EVERY outcome of the others
+(connection refused, fetch failed before or AFTER the successful one, accepted or rejected by the host filter), if some
+candidate's fetch succeeded the search does not end in `Err`, and the metadata it returns is that of the first candidate
+the host filter accepts, else that of the LAST rejected one. -/
+theorem reestablishment_keeps_fetched_metadata (cands : List Outcome) (h : anyFetched cands = true) :
+    tryOnNodes false cands none ≠ .err ∧
+    (tryOnNodes false cands none).metadata = expected cands none ∧ (expected cands none).isSome = true := by
+  have hs := expected_some_of_fetched cands none (Or.inl h)
+  obtain ⟨hm, he⟩ := tryOnNodes_reestablish cands none
+  refine ⟨fun hc => ?_, hm, hs⟩
+  rw [he.mp hc] at hs; simp at hs
+
+/-- ... the same through the fallback to the contact points: if a known peer's or, failing all of them, a contact
+point's fetch succeeded, `establish_cc_and_fetch_metadata` returns metadata. -/
+theorem establish_keeps_fetched_metadata (peers contacts : List Outcome)
+    (h : anyFetched peers = true ∨ anyFetched contacts = true) :
+    establish false peers contacts ≠ .err ∧ (establish false peers contacts).metadata.isSome = true := by
+  unfold establish
+  by_cases hp : anyFetched peers = true
+  · obtain ⟨h1, h2, h3⟩ := reestablishment_keeps_fetched_metadata peers hp
+    cases hr : tryOnNodes false peers none with
+    | err => exact absurd hr h1
+    | kept m => simp [Result.metadata]
+    | noCc m => simp [Result.metadata]
+    | dummy => rw [hr] at h2; rw [← h2] at h3; simp [Result.metadata] at h3
+  · have hc : anyFetched contacts = true := by rcases h with h | h; exact absurd h hp; exact h
+    obtain ⟨h1, h2, h3⟩ := reestablishment_keeps_fetched_metadata contacts hc
+    cases hr : tryOnNodes false peers none with
+    | err =>
+      simp only [Bool.false_eq_true, if_false]
+      refine ⟨h1, ?_⟩
+      rw [h2]; exact h3
+    | kept m => simp [Result.metadata]
+    | noCc m => simp [Result.metadata]
+    | dummy =>
+      obtain ⟨hm, _⟩ := tryOnNodes_reestablish peers none
+      rw [hr] at hm
+      have : expected peers none = none := by simpa [Result.metadata] using hm.symm
+      -- `dummy` is never produced by a re-establishment
+      exfalso
+      have hne : ∀ (cs : List Outcome) (r : Option Nat), tryOnNodes false cs r ≠ .dummy := by
+        intro cs
+        induction cs with
+        | nil => intro r; cases r <;> simp [tryOnNodes]
+        | cons c rest ih =>
+          intro r
+          cases c with
+          | connectFail => simpa [tryOnNodes] using ih r
+          | fetchFail => simpa [tryOnNodes] using ih r
+          | fetched m rej => cases rej <;> simp [tryOnNodes] <;> exact ih (some m)
+      exact hne peers none hr
+
+/-- What the worker without a control connection does with it: whenever some candidate's fetch succeeded, the event of the
+request flow is `fetchOk` - `publish_metadata` carries the pending refresh request into the slot, from where the consumer
+answers it `Ok` - and never `fetchErrNoCc`; the request is answered with the error only if NO candidate yielded metadata. -/
+theorem worker_without_cc_publishes_what_was_fetched (topoOf : Nat → Topo) (peers contacts : List Outcome) (s : Flow)
+    (h : anyFetched peers = true ∨ anyFetched contacts = true)
+    (hp : s.producerGone = false) (hc : s.consumerGone = false) (hf : s.fetching = true) :
+    let s' := RefreshFlow.step s (flowEvent topoOf (establish false peers contacts))
+    s'.answeredErr = s.answeredErr ∧ s'.pending = none ∧
+      refreshIds s'.slot = refreshIds s.slot ++ s.pending.toList := by
+  obtain ⟨hne, hm⟩ := establish_keeps_fetched_metadata peers contacts h
+  cases hr : establish false peers contacts with
+  | err => exact absurd hr hne
+  | dummy => rw [hr] at hm; simp [Result.metadata] at hm
+  | kept m =>
+    simp only [flowEvent, RefreshFlow.step, hp, hc, hf]
+    simp [refreshIds_mergeMetadata]
+  | noCc m =>
+    simp only [flowEvent, RefreshFlow.step, hp, hc, hf]
+    simp [refreshIds_mergeMetadata]
+
+/-- INITIAL establishment: a failing fetch ends the search with the metadata of a rejected node, if one was fetched,
+else dummy metadata - never with an error once a connection was opened. -/
+theorem initial_fetch_failure_falls_back (before after : List Outcome)
+    (hb : ∀ o ∈ before, o = .connectFail ∨ ∃ m, o = .fetched m true) :
+    tryOnNodes true (before ++ .fetchFail :: after) none =
+      (match expected before none with | some m => .noCc m | none => .dummy) := by
+  have gen : ∀ (before : List Outcome) (r : Option Nat),
+      (∀ o ∈ before, o = .connectFail ∨ ∃ m, o = .fetched m true) →
+      tryOnNodes true (before ++ .fetchFail :: after) r =
+        (match expected before r with | some m => .noCc m | none => .dummy) := by
+    intro before
+    induction before with
+    | nil => intro r _; cases r <;> simp [tryOnNodes, expected]
+    | cons o rest ih =>
+      intro r h
+      have hrest := fun o' ho' => h o' (List.mem_cons_of_mem _ ho')
+      rcases h o (List.mem_cons_self) with rfl | ⟨m, rfl⟩
+      · simpa [tryOnNodes, expected] using ih r hrest
+      · simpa [tryOnNodes, expected] using ih (some m) hrest
+  exact gen before none hb
+
+-- non-vacuity: the shape of the seeded defect - re-establishment, candidate A answers the fetch but is rejected by the
+-- host filter in its own metadata, candidate B (tried after it) accepts the connection and fails the fetch, C refuses:
+-- the metadata fetched on A must be returned, and the pending request rides on it.
+example :
+    tryOnNodes false [.fetched 7 true, .fetchFail, .connectFail] none = .noCc 7 ∧
+    establish false [.fetchFail, .fetched 7 true, .fetchFail] [.connectFail] = .noCc 7 ∧
+    establish false [.fetchFail, .connectFail] [.fetched 8 false] = .kept 8 ∧
+    establish false [.fetchFail] [.connectFail] = .err := by decide
+
+end Establish
 
 end ScyllaVerif.Props.C19
